@@ -34,8 +34,51 @@ def parseCmp (s : String) : Option Cmp :=
   | "ct" => some .contains | "sw" => some .startsWith | "ew" => some .endsWith | "in" => some .isIn
   | _ => none
 
+/-! arithmetic: atom := `n<twice>` | `f<ty>_<field>` | `w<letters a..c>`; expr := atom (<p|m|t|d|r> atom)*  (plus, minus, times,
+divide, remainder) -/
+def parseAtomChars (cs : List Char) : Option (Atom × List Char) :=
+  match cs with
+  | 'n' :: r =>
+    let ds := r.takeWhile Char.isDigit
+    (String.ofList ds).toNat?.map (fun n => (Atom.num n, r.dropWhile Char.isDigit))
+  | 'f' :: r =>
+    let ds := r.takeWhile Char.isDigit
+    match r.dropWhile Char.isDigit with
+    | '_' :: r2 =>
+      let es := r2.takeWhile Char.isDigit
+      do pure (Atom.fld (← (String.ofList ds).toNat?) (← (String.ofList es).toNat?), r2.dropWhile Char.isDigit)
+    | _ => none
+  | 'w' :: r =>
+    let isL := fun (c : Char) => c == 'a' || c == 'b' || c == 'c'
+    let ls := r.takeWhile isL
+    if ls.isEmpty then none else
+      some (Atom.word (10000 + ls.foldl (fun n c => 4 * n + (c.toNat - 96)) 0), r.dropWhile isL)
+  | _ => none
+
+def parseAOp (c : Char) : Option AOp :=
+  if c == 'p' then some .add else if c == 'm' then some .sub else if c == 't' then some .mul
+  else if c == 'd' then some .div else if c == 'r' then some .mod else none
+
+def parseTail : Nat → List Char → Option (List (AOp × Atom))
+  | _, [] => some []
+  | 0, _ => none
+  | n + 1, c :: r => do
+    let o ← parseAOp c
+    let (a, r2) ← parseAtomChars r
+    pure ((o, a) :: (← parseTail n r2))
+
+def parseExpr (s : String) : Option Expr := do
+  let (a, r) ← parseAtomChars s.toList
+  pure { head := a, tail := (← parseTail s.length r) }
+
+def parseAtom (s : String) : Option Atom :=
+  match parseAtomChars s.toList with
+  | some (a, []) => some a
+  | _ => none
+
 def parseAlpha (s : String) : Option Node :=
   match s.splitOn "." with
+  | ["X", e, op, rhs] => do pure (.test (← parseExpr e) (← parseCmp op) (← parseAtom rhs))
   | ["A", ty, f, op, rhs] => do
     let ty ← ty.toNat?
     let f ← f.toNat?
@@ -93,9 +136,25 @@ def parseAction (s : String) : Option Action :=
   if s = "-" then some {} else
     (s.splitOn ";").foldlM (fun (a : Action) t =>
       if t = "R" then some { a with retract := true }
+      else if t.contains '@' then
+        match t.splitOn "@" with
+        | [f, e] => do pure { a with xsets := a.xsets ++ [((← f.toNat?), (← parseExpr e), 0)] }
+        | _ => none
       else match t.splitOn "=" with
-        | [f, v] => do pure { a with sets := a.sets ++ [((← f.toNat?), (← parseVal v))] }
+        | [f, v] => do if a.xsets.isEmpty then pure { a with sets := a.sets ++ [((← f.toNat?), (← parseVal v))] } else none
         | _ => none) {}
+
+/-- the string identifier of an expression's text: 900 + its position among the distinct expressions of the case (the harness
+prints the text `evaluate_expression_for_rete` falls back to under the same number) -/
+def assignSids (rules : List Rule) : List Rule :=
+  let all := rules.flatMap (fun r => r.action.xsets.map (·.2.1))
+  let distinct := all.foldl (fun acc e => if acc.contains e then acc else acc ++ [e]) []
+  rules.map (fun r => { r with action := { r.action with
+    xsets := r.action.xsets.map (fun (f, e, _) => (f, e,
+      -- the text of a bare field reference `T<t>.f<k>` is the string a dangling variable reference degrades to (`danglingVar`)
+      match e.head, e.tail with
+      | .fld t k, [] => 1000 + 100 * t + k
+      | _, _ => 900 + (distinct.idxOf e))) } })
 
 def parseRule (i : Nat) (s : String) : Option Rule :=
   match s.splitOn ":" with
@@ -148,7 +207,7 @@ def parseXOp (s : String) : Option XOp :=
 
 def parseCase (line : String) : Option (List Rule × List XOp) :=
   match tokens line with
-  | rs :: ops => do pure ((← parseRules 0 (rs.splitOn "/")), (← ops.mapM parseXOp))
+  | rs :: ops => do pure (assignSids (← parseRules 0 (rs.splitOn "/")), (← ops.mapM parseXOp))
   | [] => none
 
 def showData (d : Data) : String :=
@@ -255,6 +314,7 @@ def clauseOf (rules : List Rule) (r : Ref) (op : Op) (o : Obs) : String :=
       if !viewsOk L o.view then "wm_views_agree"
       else if !exactOk rules r names then "quiescent_fire_all_exact"
       else if !exactAfterOk rules r names then "quiescent_fire_all_exact_after_firing"
+      else if !exactTypeOk rules r names then "quiescent_fire_all_exact_by_type"
       else "contents_after_fire"
   | _, _ => "shape"
 
@@ -298,10 +358,11 @@ def clauseOfG (rules : List Rule) (r : Ref) (op : Op) (o : Obs) : String :=
       if !viewsOk live' o.view then "wm_views_agree"
       else if !(live'.all (fun f => r.live.any (fun g => g.1 == f.1 && g.2.1 == f.2.1))) then "retracted_or_unknown_fact_live"
       else if !(rules.any (·.action.retract) || live'.map (·.1) == r.live.map (·.1)) then "fact_lost"
-      else if !(!(rules.all (fun rule => rule.action.sets.isEmpty)) || live'.all (fun f => r.live.any (fun g => g == f))) then "contents_after_fire"
+      else if !(!(rules.all (fun rule => !hasAssigns rule)) || live'.all (fun f => r.live.any (fun g => g == f))) then "contents_after_fire"
       else if !(!inertRules rules || firedSatisfied rules r.live names) then "fires_only_if_true_now"
       else if !exactOk rules r names then "quiescent_fire_all_exact"
       else if !exactAfterOk rules r names then "quiescent_fire_all_exact_after_firing"
+      else if !exactTypeOk rules r names then "quiescent_fire_all_exact_by_type"
       else "?"
   | .fire, _ => "shape"
   | _, _ => clauseOf rules r op o
@@ -326,6 +387,28 @@ def nodeOps : Node → List Cmp
   | .and l r => nodeOps l ++ nodeOps r
   | .or l r => nodeOps l ++ nodeOps r
   | .not n => nodeOps n
+  | .test _ op _ => [op]
+
+def hasTest : Node → Bool
+  | .alpha _ _ _ _ => false
+  | .and l r => hasTest l || hasTest r
+  | .or l r => hasTest l || hasTest r
+  | .not n => hasTest n
+  | .test _ _ _ => true
+
+/-- a firing of a rule with expression assignments, the matched fact the only live one of its type: are all expressions defined? -/
+def exprTags (rules : List Rule) (os : List Obs) : List String :=
+  let logs := os.flatMap (fun o => match o.res with | .fired _ log => log | _ => [])
+  let xs := logs.filterMap (fun x => (rules.find? (·.name == x.rule)).bind (fun r => if r.action.xsets.isEmpty then none else some (r, x)))
+  (if xs.isEmpty then [] else ["expr_fired"]) ++
+  (if xs.any (fun (r, x) => definedOn r x.data) then ["expr_defined"] else []) ++
+  (if xs.any (fun (r, x) => !definedOn r x.data) then ["expr_undefined"] else []) ++
+  (if xs.any (fun (r, x) => r.action.xsets.any (fun (f, e, _) => e.head == .fld r.ty f || e.tail.any (fun p => p.2 == .fld r.ty f)) &&
+      (logs.filter (fun y => y.rule == x.rule && y.handle == x.handle)).length ≥ 2) then ["self_update_refired"] else []) ++
+  (if xs.any (fun (r, x) => (assignsOn r x.data).any (fun kv => match kv.2, x.data.get kv.1 with
+      | .flt _, some (.int _) => true | .int _, some (.flt _) => true | _, _ => false)) then ["expr_changes_type"] else []) ++
+  (if xs.any (fun (r, x) => (assignsOn r x.data).any (fun kv => match kv.2 with
+      | .int i => i ≥ 2 ^ 62 || i ≤ -(2 ^ 62) | _ => false)) then ["expr_near_i64_bounds"] else [])
 
 def tagsOf (rules : List Rule) (xops : List XOp) (xos : List XObs) (d1 : Bool) : List String :=
   let ops := xops.filterMap (fun x => match x with | .base o => some o | _ => none)
@@ -347,6 +430,9 @@ def tagsOf (rules : List Rule) (xops : List XOp) (xos : List XObs) (d1 : Bool) :
     ++ (if xops.any (fun x => x == .resetDeffacts) then ["reset_with_deffacts"] else [])
     ++ (if cmps.any (fun c => c == .contains || c == .startsWith || c == .endsWith) then ["string_operator"] else [])
     ++ (if cmps.any (fun c => c == .isIn) then ["in_operator"] else [])
+    ++ (if rules.any (fun r => hasTest r.node) then ["test_condition"] else [])
+    ++ (if rules.any (fun r => !r.action.xsets.isEmpty) then ["expr_action"] else [])
+    ++ exprTags rules os
     ++ [s!"live_max_{maxLive}"]
     ++ (if fired > 0 && ops.any (fun o => match o with | .update _ _ => true | .retract _ => true | _ => false) then ["nontrivial"] else [])
 
@@ -357,6 +443,9 @@ def oracleLine (line : String) : String :=
     | some (rules, ops) =>
       match tokens o with
       | dTok :: obsToks =>
+        -- DX: a value outside the modelled domain showed up in the run (a float that is not a multiple of 1/2, NaN, a string that
+        -- is neither `s<k>`, a word over {a,b,c} nor the text of one of the case's expressions): nothing is claimed
+        if dTok == "DX" then "ok out_of_domain" else
         if dTok != "D0" && dTok != "D1" then (if dTok.startsWith "panic" then "fail panic" else "fail unparsable-observation") else
         let (obsToks, loader) := splitLoader obsToks
         let obsToks := if obsToks == ["-"] then [] else obsToks
